@@ -51,6 +51,7 @@ type Scenario struct {
 	NoAnnounce bool       `json:"noAnnounce"`
 	Announce   string     `json:"announce"` // header | outline | both (default both)
 	NoRetry    bool       `json:"noRetry"`
+	Spend      *SpendSpec `json:"spend"` // the two forks a and b spend the same pre-fork output (spend.go); replaces Branches
 	Grow       *GrowSpec  `json:"grow"` // second phase: once every link is synced a node mines and relays new blocks
 	ShorterWinner bool    `json:"shorterWinner"` // premise of the scenario: the heaviest tip is NOT the longest
 	HardTarget bool       `json:"hardTarget"` // InitialTarget {0x00,0x10}: work per block diverges from 1, heaviest != longest
@@ -147,7 +148,13 @@ func RunConverge(sc Scenario, slot int) (out *Outcome) {
 		}
 		w.state[w.Genesis.ID()] = cs
 	}
-	mgr, err := buildTree(w, sc.Branches)
+	var mgr map[string]*chain.Manager
+	var err error
+	if sc.Spend != nil {
+		mgr, err = buildSpendTree(w, *sc.Spend)
+	} else {
+		mgr, err = buildTree(w, sc.Branches)
+	}
 	if err != nil {
 		fail("infra:tree", "%v", err)
 		return
